@@ -100,6 +100,23 @@ func (t *T) Records() []SendRec {
 	return append([]SendRec(nil), t.Sends...)
 }
 
+// Len is the number of recorded sends.
+func (t *T) Len() int {
+	t.mu.Lock()
+	defer t.mu.Unlock()
+	return len(t.Sends)
+}
+
+// Since returns a copy of the records from index i on.
+func (t *T) Since(i int) []SendRec {
+	t.mu.Lock()
+	defer t.mu.Unlock()
+	if i > len(t.Sends) {
+		i = len(t.Sends)
+	}
+	return append([]SendRec(nil), t.Sends[i:]...)
+}
+
 func (t *T) Reset() {
 	t.mu.Lock()
 	t.Sends = nil
